@@ -91,7 +91,15 @@ def _post(self, args, kwargs, result, exc, token):
     flat0 = token["flat"]
     count = len(flat0)
     if count == 0:
-        _bump("empty_not_judged")
+        # nothing to number: only the argument rules can be judged (start outside the range, step below 1 with a positive start)
+        _bump("entry_less_objects_judged")
+        bad_args = (not 0 <= start <= MAXSEQ) or (start > 0 and step < 1)
+        if bad_args and exc is None:
+            FOUND.append({"what": "resequence of an entry-less object accepted a start outside 0..4294967295 or a step below 1",
+                          "detail": {"class": type(self).__name__, "start": start, "step": step, "result": result}})
+        elif not bad_args and exc is not None:
+            FOUND.append({"what": "resequence of an entry-less object raised although start and step are in range",
+                          "detail": {"class": type(self).__name__, "start": start, "step": step, "exc": repr(exc)}})
         return
     cls = type(self).__name__
     must_raise = None
@@ -244,7 +252,11 @@ def gen_cases(ctx):
                 if rng.random() < 0.7 else "remark only line"
             kind = rng.choice(["Acl", "AceGroup", "AddrGroup"])
             calls = [_start_step(rng, 1) for _ in range(rng.randint(1, 3))]
-            if kind == "Acl":
+            if kind == "Acl" and rng.random() < 0.3:
+                # an ACL without entries: the argument rules hold all the same
+                yield {"cls": "Acl", "platform": platform, "text": grammar.acl_header(platform, "NONE"), "group_by": "",
+                       "calls": [_start_step(rng, 1) for _ in range(3)], "n": 0, "extra": [], "version": ""}
+            elif kind == "Acl":
                 yield {"cls": "Acl", "platform": platform, "text": grammar.acl_header(platform, "ONE") + "\n " + line, "group_by": "",
                        "calls": calls, "n": 1, "extra": [], "version": ""}
             elif kind == "AceGroup":
